@@ -41,24 +41,43 @@ KF_ID = "guessed-project-name-follows-set-order"
 
 # ------------------------------------------------------------------------------------- universes
 # name -> kind tree; ids used by the spec are the ranks of the names under sorted(Path) among siblings
+ZOPE_SRC = (
+    '"""Module Ma: differs from ma only in the case of a letter; zope interfaces inherited from ONE base."""\n'
+    'from zope.interface import Interface, implementer\n'
+    'class IAlpha(Interface):\n    "Alpha."\n    def run():\n        "Run in the way IAlpha wants it."\n'
+    'class IBeta(Interface):\n    "Beta."\n    def run():\n        "Run in the way IBeta wants it."\n'
+    'class IGamma(Interface):\n    "Gamma."\n    def run():\n        "Run in the way IGamma wants it."\n'
+    '@implementer(IAlpha, IBeta, IGamma)\nclass ZBase:\n    "Declares the interfaces."\n'
+    'class ZChild(ZBase):\n    "Inherits the interfaces from L{ZBase}."\n    def run(self):\n        pass\n')
 MODULE_SRC = {
     "alpha/__init__.py": '"""Alpha package."""\nfrom alpha.ma import A\n__all__ = ["A", "helper"]\ndef helper(x: int = 1) -> int:\n    "Help."\n    return x\n',
     "alpha/ma.py": '"""Module ma."""\nclass A:\n    "Class A."\n    def m(self):\n        "method"\nclass A2(A):\n    "Sub of A, see L{A}."\n',
+    "alpha/Ma.py": ZOPE_SRC,
     "alpha/mb.py": '"""Module mb."""\nfrom alpha.ma import A\nclass B(A):\n    "B."\nclass B2(A):\n    "B2."\nCONST = {"k": 1, "j": 2}\n',
-    "alpha/sc/__init__.py": '"""Sub package."""\n',
-    "alpha/sc/md.py": '"""Module md."""\nfrom alpha.ma import A\nclass D(A):\n    "D."\n    x = 1\n    "x doc"\n',
     "alpha/.hidden": "not python\n",
     "beta/__init__.py": '"""Beta package."""\n',
+    "beta/sc/__init__.py": '"""Sub package."""\n',
+    "beta/sc/md.py": '"""Module md."""\nfrom alpha.ma import A\nclass D(A):\n    "D."\n    x = 1\n    "x doc"\n',
     "beta/me.py": '"""Module me."""\nimport alpha.ma\nclass E(alpha.ma.A):\n    "E extends L{alpha.ma.A}."\ndef f(a, b=(1, 2)):\n    "f."\n',
     "beta/README.txt": "data\n",
     "gamma.py": '"""Gamma module."""\nimport alpha.ma\nclass G(alpha.ma.A):\n    "G."\nv = 3\n"v doc"\n',
 }
+# "small": a package with two modules whose names differ only in case, a package with a nested package, a module
 UNIVERSES = {
-    "small": ["alpha/__init__.py", "alpha/ma.py", "alpha/sc/__init__.py", "alpha/sc/md.py",
-              "beta/__init__.py", "beta/me.py", "gamma.py"],
-    "large": ["alpha/__init__.py", "alpha/ma.py", "alpha/mb.py", "alpha/sc/__init__.py", "alpha/sc/md.py",
-              "alpha/.hidden", "beta/__init__.py", "beta/me.py", "beta/README.txt", "gamma.py"],
+    "small": ["alpha/__init__.py", "alpha/Ma.py", "alpha/ma.py", "beta/__init__.py", "beta/sc/__init__.py", "beta/sc/md.py",
+              "gamma.py"],
+    "large": ["alpha/__init__.py", "alpha/Ma.py", "alpha/ma.py", "alpha/mb.py", "alpha/.hidden",
+              "beta/__init__.py", "beta/me.py", "beta/README.txt", "beta/sc/__init__.py", "beta/sc/md.py", "gamma.py"],
 }
+# collections of names that reach a page (Determinism.tla `sites`): (name, module, how, [(defining module, element)])
+# elements are listed in the order the code collects them; ranks are those of the sort key (fullName().lower())
+SITES = [
+    ("interfaces:alpha.Ma.ZChild.run", "alpha.Ma", "list",
+     [("alpha.Ma", "alpha.Ma.IAlpha"), ("alpha.Ma", "alpha.Ma.IBeta"), ("alpha.Ma", "alpha.Ma.IGamma")]),
+    ("subclasses:alpha.ma.A", "alpha.ma", "sorted",
+     [("alpha.ma", "alpha.ma.A2"), ("alpha.mb", "alpha.mb.B"), ("alpha.mb", "alpha.mb.B2"), ("beta.me", "beta.me.E"),
+      ("beta.sc.md", "beta.sc.md.D"), ("gamma", "gamma.G")]),
+]
 FIXED_PAGES = {"index.html": [0, 0], "moduleIndex.html": [0, 1], "classIndex.html": [0, 2], "nameIndex.html": [0, 3],
                "undoccedSummary.html": [0, 4], "all-documents.html": [0, 5]}
 
@@ -112,8 +131,21 @@ class Tree:
             elif k == "mod":
                 self.name_of[sub] = self.name_of[path] + "." + p.name[:-3]
 
-    def universe(self) -> Dict[str, Any]:
-        return {"roots": self.roots, "dirs": self.dirs}
+    def universe(self, sites: bool = True) -> Dict[str, Any]:
+        out = []
+        for name, mod, how, elems in (SITES if sites else []):
+            if mod not in self.path_of_name:
+                continue
+            present = [(m, e) for m, e in elems if m in self.path_of_name]
+            rank = {e: i for i, e in enumerate(sorted((e for _, e in present), key=str.lower), 1)}
+            out.append({"name": name, "mod": list(self.path_of_name[mod]), "how": how,
+                        "elems": [{"m": list(self.path_of_name[m]), "r": rank[e]} for m, e in present]})
+        return {"roots": self.roots, "dirs": self.dirs, "sites": out}
+
+    def site_element(self, site: str, rank: int) -> str:
+        elems = next(el for name, _, _, el in SITES if name == site)
+        present = sorted((e for m, e in elems if m in self.path_of_name), key=str.lower)
+        return present[rank - 1]
 
     def entry_names(self, path: Sequence[int]) -> Dict[int, str]:
         d = self.dir_of_path[tuple(path)]
@@ -320,6 +352,24 @@ def project_files(tree: Tree, out: Path) -> List[List[int]]:
     return ids
 
 
+def observed_sites(out: Path) -> Dict[str, Any]:
+    """What the pages show at the places Determinism.tla calls sites."""
+    obs: Dict[str, Any] = {}
+    f = out / "alpha.Ma.ZChild.html"
+    if f.exists():
+        # the docstring ZChild.run inherits comes from the FIRST interface of allImplementedInterfaces that has run()
+        obs["interfaces:alpha.Ma.ZChild.run"] = ["alpha.Ma." + m for m in re.findall(r"Run in the way (I\w+) wants it", f.read_text())[:1]]
+    f = out / "alpha.ma.A.html"
+    if f.exists():
+        m = re.search(r"Known subclasses:(.*?)</p>", f.read_text(), re.S)
+        obs["subclasses:alpha.ma.A"] = re.findall(r'title="([^"]+)"', m.group(1)) if m else []
+    f = out / "index.html"
+    if f.exists():
+        m = re.search(r"Or start at one of the root\s+([a-z/]+):", f.read_text())
+        obs["rootkinds"] = m.group(1) if m else ""
+    return obs
+
+
 def alldocs_order(tree: Tree, out: Path) -> List[List[int]]:
     f = out / "all-documents.html"
     if not f.exists():
@@ -332,6 +382,7 @@ CFG = """SPECIFICATION Spec
 CONSTANTS MaxRoots = {maxroots}
           Source = "{source}"
           Guess = "{guess}"
+          ReuseUpTo = {reuse}
           Listing = "{listing}"
 CONSTRAINT Collect
 CONSTRAINT Emit
@@ -339,10 +390,15 @@ POSTCONDITION Post
 """
 
 
-def tlc_enum(ctx: Ctx, tree: Tree, maxroots: int, guess: str, listing: str = "sorted", count: bool = True, coverage: bool = False):
+def tlc_enum(ctx: Ctx, tree: Tree, maxroots: int, guess: str, listing: str = "sorted", count: bool = True, coverage: bool = False,
+             reuse: int = 9, sites_as_set: bool = False):
     f = ctx.scratch / f"universe_{tree.src.name}.json"
-    f.write_text(json.dumps(tree.universe()))
-    r = ctx.tlc("Determinism", CFG.format(maxroots=maxroots, source="enum", guess=guess, listing=listing), workers=1,
+    uni = tree.universe()
+    if sites_as_set:
+        for st in uni["sites"]:
+            st["how"] = "set"
+    f.write_text(json.dumps(uni))
+    r = ctx.tlc("Determinism", CFG.format(maxroots=maxroots, source="enum", guess=guess, listing=listing, reuse=reuse), workers=1,
                 env={"C18_UNIVERSE": str(f)}, check=True, timeout=1500, count=count, coverage=coverage)
     post = [x for x in r.printed if "dependent" in x]
     recs = [x for x in r.printed if "pid" in x]
@@ -434,6 +490,15 @@ def realise_enumeration(ctx: Ctx, runner: Runner, tree: Tree, uname: str, recs: 
             bad["files"] = {"model": sorted(rec["files"]), "real": files}
         if alld != rec["alldocs"]:
             bad["alldocs"] = {"model": rec["alldocs"], "real": alld}
+        obs = observed_sites(out)
+        for st in rec.get("sites", []):
+            model_names = [tree.site_element(st["name"], r) for r in st["order"]]
+            real = obs.get(st["name"])
+            if real is None or real != model_names[:len(real)] or (model_names and not real):
+                bad["site:" + st["name"]] = {"model": model_names, "real": real}
+        kinds = "/".join({1: "modules", 2: "packages"}[k] for k in rec.get("rootkinds", []))
+        if kinds != (obs.get("rootkinds") or ""):
+            bad["rootkinds"] = {"model": kinds, "real": obs.get("rootkinds")}
         # the listing the code saw must be the one chosen (otherwise the binding is void)
         for l in rec["listing"]:
             d = str(tree.dir_of_path[tuple(l["dir"])])
@@ -566,24 +631,24 @@ def run(ctx: Ctx) -> int:
     ctx.register_matcher(KF_ID, kf_rootname_set_order)
     runner = Runner(ctx.scratch)
     pool = ThreadPoolExecutor(max_workers=max(2, min(NCPU - 2, 14)))
-    plans = [("small", 2)] if ctx.quick else [("small", 3), ("large", 1)]
+    plans = [("small", 2, 1)] if ctx.quick else [("small", 3, 9), ("large", 1, 9)]
     nseeds = 64 if ctx.quick else 128
     guess_variant = None
     summary: Dict[str, Any] = {}
     total_recs = 0
     nontrivial = 0
     try:
-        for uname, maxroots in plans:
+        for uname, maxroots, reuse in plans:
             src = ctx.scratch / f"src_{uname}"
             materialise(src, UNIVERSES[uname])
             tree = Tree(src, sorted({f.split("/")[0] for f in UNIVERSES[uname]}))
-            recs, dep_model, r = tlc_enum(ctx, tree, maxroots, "set", coverage=ctx.quick)
+            recs, dep_model, r = tlc_enum(ctx, tree, maxroots, "rootobjects", coverage=ctx.quick, reuse=reuse)
             if r.coverage:
                 ctx.extra["action_coverage"] = r.coverage
                 ctx.extra["actions_never_taken"] = [a for a, c in r.coverage.items() if c == 0 and a[0].isupper() and a != "Init"]
             res = realise_enumeration(ctx, runner, tree, uname, recs, pool, nseeds)
-            # which of the two transcriptions of the name guess does the code follow?  (set iteration = unchanged
-            # tree; command line order = the proposed fix).  Both live in the spec; use the one the code conforms to.
+            # which of the two transcriptions of the name guess does the code follow?  (command line order = the code
+            # since fix 2ce009d; set iteration = before it).  Both live in the spec; use the one the code conforms to.
             def name_mismatches(records: List[Dict[str, Any]]) -> List[Tuple[Dict[str, Any], str]]:
                 key = lambda q: json.dumps([q["pid"], q["outdir"], q["setOrder"], q["listing"]], sort_keys=True)
                 byk = {key(q): q for q in records}
@@ -596,12 +661,12 @@ def run(ctx: Ctx) -> int:
                         bad.append((x, model))
                 return bad
             mism = name_mismatches(recs)
-            variant = "set"
+            variant = "rootobjects"
             if mism:
-                recs2, dep2, _ = tlc_enum(ctx, tree, maxroots, "rootobjects")
+                recs2, dep2, _ = tlc_enum(ctx, tree, maxroots, "set", reuse=reuse)
                 mism2 = name_mismatches(recs2)
                 if len(mism2) < len(mism):
-                    mism, dep_model, variant = mism2, dep2, "rootobjects"
+                    mism, dep_model, variant = mism2, dep2, "set"
             for x, model in mism:
                 x["drift"] = {**(x["drift"] or {}), "projname": {"model": model, "real": x["guess"]}}
             if guess_variant not in (None, variant):
@@ -627,9 +692,11 @@ def run(ctx: Ctx) -> int:
         tree = Tree(src, sorted({f.split("/")[0] for f in UNIVERSES["small"]}))
         _, dep_sorted, _ = tlc_enum(ctx, tree, 1, "rootobjects", "sorted", count=False)
         _, dep_raw, _ = tlc_enum(ctx, tree, 1, "rootobjects", "raw", count=False)
+        _, dep_sets, _ = tlc_enum(ctx, tree, 1, "rootobjects", "sorted", count=False, reuse=0, sites_as_set=True)
         ctx.extra["negative_control_model"] = {"dependent_with_sorted_listing": sorted(dep_sorted),
-                                               "dependent_with_raw_listing": sorted(dep_raw)}
-        if dep_sorted or not dep_raw:
+                                               "dependent_with_raw_listing": sorted(dep_raw),
+                                               "dependent_with_name_collections_iterated_as_sets": sorted(dep_sets)}
+        if dep_sorted or not dep_raw or not dep_sets:
             raise MachineryError(f"negative control of the hyper-property registers failed: {dep_sorted} / {dep_raw}")
 
         # ---- code -> spec
@@ -649,14 +716,14 @@ def run(ctx: Ctx) -> int:
                 ids = {nm: i for i, nm in tree.entry_names(d["path"]).items()}
                 listing.append([{"id": ids[n], "kind": d["ents"][ids[n]]["kind"]} for n in byd[dp] if n in ids])
             rid = {v: k for k, v in tree.root_name.items()}
-            fruns.append({"reg": r["pi"] + 1, "u": tree.universe(), "roots": [rid[n] for n in r["pr"]["roots"]],
+            fruns.append({"reg": r["pi"] + 1, "u": tree.universe(sites=False), "roots": [rid[n] for n in r["pr"]["roots"]],
                           "named": r["pr"]["named"], "setOrder": [rid[n] for n in r["setorder"]],
                           "listing": listing, "outdir": r["outdir"]})
         f = ctx.scratch / "runs.json"
         f.write_text(json.dumps(fruns))
         file_drift = 0
         gv = guess_variant or "set"
-        r2 = ctx.tlc("Determinism", CFG.format(maxroots=0, source="file", guess=gv, listing="sorted"), workers=1,
+        r2 = ctx.tlc("Determinism", CFG.format(maxroots=0, source="file", guess=gv, listing="sorted", reuse=9), workers=1,
                      env={"C18_RUNS": str(f)}, check=True, timeout=1500)
         got = {x["pid"]: x for x in r2.printed if "pid" in x}
         if len(got) != len(fruns):
